@@ -1159,7 +1159,9 @@ impl<'a, E: Engine> Replayer<'a, E> {
         }
 
         // C18: reset_remove against layer A for every clock of the bounded universe
-        if E::HAS_RESET {
+        // (only where the real pre-state is the model's: the expectation is the declarative reset of
+        //  THAT state; on a drifted state a difference would say nothing about reset_remove itself)
+        if E::HAS_RESET && base_proj == E::canon_b(&ln["B"]) {
             if let Some(rs) = ln["rs"].as_array() {
                 for item in rs.iter() {
                     let c: Vec<u64> = item[0].as_array().unwrap().iter().map(|x| x.as_u64().unwrap()).collect();
